@@ -225,6 +225,15 @@ _SetI = z3.ArraySort(I, B)
 tset = z3.Function("tset", TupS, _SetI)
 scommon = z3.Function("scommon", _SetI, _SetI, I)
 
+def _pair_ii():
+    from . import ty as T
+    return T.Pair(T.INT, T.INT)
+
+
+ROWSUM = z3.Function("rowsum", z3.ArraySort(_pair_ii().sort(), R), I, I, R)      # sum of the c cells of row i of a table of numbers
+RSDIFF = z3.Function("rowsum_diff", z3.ArraySort(_pair_ii().sort(), R), z3.ArraySort(_pair_ii().sort(), R), I, I, I)
+
+
 def nx_centrality(kind, cls):
     """networkx centrality of a graph over integer vertices: vertex -> value, an uninterpreted function of the graph's components."""
     from . import ty as T
@@ -236,6 +245,13 @@ def nx_centrality(kind, cls):
 EXTRA = {}    # name -> axiom, registered by contract modules (assumed properties of uncontracted code; listed as trusted)
 
 
+_m1, _m2 = z3.Const("_rm1", z3.ArraySort(_pair_ii().sort(), R)), z3.Const("_rm2", z3.ArraySort(_pair_ii().sort(), R))
+_ri, _rc = z3.Int("_ri"), z3.Int("_rc")
+EXTRA["rowsum_ext (a row sum depends only on the cells of that row)"] = z3.ForAll(
+    [_m1, _m2, _ri, _rc], z3.Or(ROWSUM(_m1, _ri, _rc) == ROWSUM(_m2, _ri, _rc),
+                                z3.And(0 <= RSDIFF(_m1, _m2, _ri, _rc), RSDIFF(_m1, _m2, _ri, _rc) < _rc,
+                                       _m1[_pair_ii().mk(_ri, RSDIFF(_m1, _m2, _ri, _rc))] != _m2[_pair_ii().mk(_ri, RSDIFF(_m1, _m2, _ri, _rc))])),
+    patterns=[MP(ROWSUM(_m1, _ri, _rc), ROWSUM(_m2, _ri, _rc))])
 _pa, _pb = z3.Int("_pa"), z3.Int("_pb")
 _ts1, _ts2 = z3.Const("_ts1", _SetI), z3.Const("_ts2", _SetI)
 EXTRA.update({
